@@ -94,6 +94,7 @@ typedef struct {
     unsigned char *work_raw; char *work; long lwork; int walign; int usework;
     int_t info;
     int ilu;
+    int lu_user;      /* the factors held live inside a caller workspace */
     long ledger_mark;
 } ctx_t;
 #define NCTX 4
@@ -308,7 +309,8 @@ static void cmd_work(char *s)
 {
     ctx_t *c = cx; long lw; int al;
     if (sscanf(s, "%ld %d", &lw, &al) < 2) { fprintf(stderr, "bad work\n"); _exit(98); }
-    if (c->work_raw) { free(c->work_raw); c->work_raw = 0; }
+    /* an earlier workspace may still hold factors of this context: it is never released inside a scenario */
+    c->work_raw = 0;
     c->lwork = lw; c->walign = al; c->usework = 1;
     if (lw > 0) {
         size_t tot = (size_t)lw + 2 * GUARD + 64;
@@ -412,6 +414,7 @@ static void call_gssv(void)
     FN(gssv)(&c->opt, &c->A, c->perm_c, c->perm_r, &c->L, &c->U, &c->B, &c->stat, &c->info);
     /* L and U exist whenever the factor routine ran to completion (info in 0..n) */
     c->haveL = c->haveU = (c->info >= 0 && c->info <= c->n);
+    c->lu_user = 0;
     if (c->haveL) { /* everything the caller was handed: mark as caller-owned */
         SCformat *S = c->L.Store; NCformat *Us = c->U.Store;
         own(S); own(S->rowind); own(S->rowind_colptr); own(S->nzval); own(S->nzval_colptr); own(S->col_to_sup); own(S->sup_to_col);
@@ -448,10 +451,11 @@ static void call_gssvx(int ilu)
         FN(gssvx)(&c->opt, &c->A, c->perm_c, c->perm_r, c->etree, c->equed, c->R, c->C, &c->L, &c->U, work, lwork,
                   &c->B, &c->X, &c->rpg, &c->rcond, c->ferr, c->berr, &c->Glu, &c->mu, &c->stat, &c->info);
     int n = c->n;
-    if (c->opt.Fact != FACTORED) {
+    if (c->opt.Fact != FACTORED && lwork != -1) {
         /* a factorization was attempted: L,U exist iff it ran to completion */
         int done = (c->info >= 0 && c->info <= n + 1) && lwork != -1;
         if (c->info < 0) done = hadLU;     /* rejected call: whatever existed still exists */
+        else if (c->opt.Fact != SamePattern_SameRowPerm) c->lu_user = done && lwork > 0;
         c->haveL = c->haveU = done;
     }
     mark_LU_owned(c);
@@ -485,6 +489,7 @@ static void call_gstrf(int ilu)
     else FN(gstrf)(&c->opt, &AC, sp_ienv(2), sp_ienv(1), c->etree, work, lwork, c->perm_c, c->perm_r, &c->L, &c->U, &c->Glu, &c->stat, &c->info);
     Destroy_CompCol_Permuted(&AC);
     c->haveL = c->haveU = (c->info >= 0 && c->info <= c->n && lwork != -1);
+    c->lu_user = c->haveL && lwork > 0;
     mark_LU_owned(c);
     common_head(ilu ? "gsitrf" : "gstrf", c); opts_json(&c->opt);
     fprintf(OUT, ",\"info\":%lld", (long long)c->info);
@@ -535,11 +540,12 @@ static void cmd_destroy(char *s)
     ctx_t *c = cx; char w[32] = ""; sscanf(s, "%31s", w);
     if (!strcmp(w, "LU")) destroy_LU(c, 0);
     else if (!strcmp(w, "LUuser")) destroy_LU(c, 1);
+    else if (!strcmp(w, "LUauto")) destroy_LU(c, c->lu_user);
     else if (!strcmp(w, "A")) free_A(c);
     else if (!strcmp(w, "B")) free_B(c);
     else if (!strcmp(w, "stat")) { if (c->haveStat) { StatFree(&c->stat); c->haveStat = 0; } }
     else if (!strcmp(w, "all")) {
-        destroy_LU(c, c->usework && c->lwork > 0); free_A(c); free_B(c);
+        destroy_LU(c, c->lu_user); free_A(c); free_B(c);
         if (c->haveStat) { StatFree(&c->stat); c->haveStat = 0; }
         if (c->perm_c) { SUPERLU_FREE(c->perm_c); SUPERLU_FREE(c->perm_r); SUPERLU_FREE(c->etree); SUPERLU_FREE(c->R); SUPERLU_FREE(c->C); SUPERLU_FREE(c->ferr); SUPERLU_FREE(c->berr); c->perm_c = 0; }
     }
@@ -615,9 +621,9 @@ int main(int argc, char **argv)
                 pid_t pid = fork();
                 if (pid == 0) { alarm(timeout); run_scenario(); fflush(OUT); _exit(0); }
                 int st = 0; waitpid(pid, &st, 0);
-                if (WIFSIGNALED(st)) fprintf(OUT, "{\"e\":\"Done\",\"id\":\"%s\",\"status\":\"%s\",\"sig\":%d,\"code\":0}\n", g_id, WTERMSIG(st) == SIGALRM ? "timeout" : "crash", WTERMSIG(st));
+                if (WIFSIGNALED(st)) fprintf(OUT, "{\"e\":\"Done\",\"id\":\"%s\",\"status\":\"%s\",\"sig\":%d,\"code\":0,\"pid\":%d}\n", g_id, WTERMSIG(st) == SIGALRM ? "timeout" : "crash", WTERMSIG(st), (int)pid);
                 else if (WEXITSTATUS(st) == 98) { fprintf(stderr, "sluh: script error in %s\n", g_id); return 2; }
-                else fprintf(OUT, "{\"e\":\"Done\",\"id\":\"%s\",\"status\":\"%s\",\"sig\":0,\"code\":%d}\n", g_id, WEXITSTATUS(st) == 0 ? "ok" : (WEXITSTATUS(st) == 97 ? "abort" : "exit"), WEXITSTATUS(st));
+                else fprintf(OUT, "{\"e\":\"Done\",\"id\":\"%s\",\"status\":\"%s\",\"sig\":0,\"code\":%d,\"pid\":%d}\n", g_id, WEXITSTATUS(st) == 0 ? "ok" : (WEXITSTATUS(st) == 97 ? "abort" : (WEXITSTATUS(st) == 96 ? "sanitizer" : "exit")), WEXITSTATUS(st), (int)pid);
             }
             fflush(OUT);
             for (int i = 0; i < SCN; i++) free(SC[i]);
